@@ -327,7 +327,7 @@ def scenarios(rng, tier):
         kind = kinds[k % len(kinds)] if k < len(kinds) else rng.choice(kinds)
         np_ = rng.choice([2, 2, 3]) if tier == 'quick' else rng.choice([2, 3, 3, 5])
         nel = rng.choice([2, 3])        # x 2 elements in the second direction
-        sc = dict(id=k + 1, kind=kind, np=np_, nelems=nel, seed=rng.randrange(1000), timeout=40,
+        sc = dict(id=k + 1, kind=kind, np=np_, nelems=nel, seed=rng.randrange(1000), timeout=10,
                   sleep=[rng.choice([0, 0.01, 0.03, 0.06]) for _ in range(5)])
         if kind == 'locate':
             sc['npoints'] = rng.choice([4, 5, 7])
